@@ -688,6 +688,115 @@ func c17wrap(c *core.Ctx) {
 	}
 }
 
+// c17window: one publisher, one topic, one QoS level, many messages in flight: the
+// inbound QoS 2 queue (16 slots, grows, wraps) and the subscriber's outbound queues
+// must not reorder them.  Window shapes: `done` exchanges completed one by one, then
+// PUBLISH x a, PUBREL for the first r of them, PUBLISH x b, then the remaining PUBRELs
+// in order (QoS 1: the same numbers of publishes, acknowledged by the broker at once).
+// Default schedule; the subscriber acknowledges everything.
+func c17window(c *core.Ctx) {
+	type shape struct{ done, a, r, b int }
+	var shapes []shape
+	for _, done := range []int{0, 3} {
+		for _, a := range []int{10, 16, 17} {
+			for _, r := range []int{0, 4} {
+				for _, b := range []int{0, 11, 20} {
+					shapes = append(shapes, shape{done, a, r, b})
+				}
+			}
+		}
+	}
+	n := 0
+	for _, q := range []byte{2, 1} {
+		for _, sh := range shapes {
+			n++
+			if c.NShards > 1 && n%c.NShards != c.Shard {
+				continue
+			}
+			if c.Expired() || c.HasViolation() {
+				return
+			}
+			if !c.Thorough() && q == 1 && (sh.r != 0 || sh.done != 0) {
+				continue
+			}
+			q, sh := q, sh
+			name := fmt.Sprintf("window: QoS %d, %d completed, then %d in flight, %d released, %d more, rest released in order", q, sh.done, sh.a, sh.r, sh.b)
+			var viol string
+			body := func() {
+				t := newTD()
+				p := t.connect("P", 0, 65535, false)
+				sub := t.connect("S", 0, 65535, false)
+				t.subscribe("S", "w", q)
+				if vsched.Failed() {
+					return
+				}
+				p.rc.AutoAck = true
+				id := uint16(0)
+				var want []string
+				pub := func() uint16 {
+					id++
+					pl := fmt.Sprintf("m%03d", id)
+					want = append(want, pl)
+					p.rc.Send(&refcodec.Packet{Type: refcodec.PUBLISH, Topic: []byte("w"), QoS: q, ID: id, Payload: []byte(pl)})
+					t.settleExcept()
+					return id
+				}
+				rel := func(k uint16) {
+					if q == 2 {
+						p.rc.Send(&refcodec.Packet{Type: refcodec.PUBREL, ID: k})
+						t.settleExcept()
+					}
+				}
+				for i := 0; i < sh.done; i++ {
+					rel(pub())
+				}
+				first := id + 1
+				for i := 0; i < sh.a; i++ {
+					pub()
+				}
+				for i := 0; i < sh.r; i++ {
+					rel(first + uint16(i))
+				}
+				for i := 0; i < sh.b; i++ {
+					pub()
+				}
+				for k := first + uint16(sh.r); k <= id; k++ {
+					rel(k)
+				}
+				t.settleExcept()
+				if sub.rc.Bad != "" || p.rc.Bad != "" {
+					vsched.Failf("%s%s", sub.rc.Bad, p.rc.Bad)
+					return
+				}
+				var got []string
+				for _, pk := range sub.rc.Take() {
+					if pk.Type == refcodec.PUBLISH && string(pk.Topic) == "w" {
+						got = append(got, string(pk.Payload))
+					}
+				}
+				if strings.Join(got, " ") != strings.Join(want, " ") {
+					vsched.Failf("one publisher, one topic, QoS %d: published %s; the subscriber received %s", q, strings.Join(want, " "), strings.Join(got, " "))
+				}
+			}
+			res := explore.RunDefault(body)
+			c.Rep.Executions++
+			c.Rep.Transitions += int64(len(res.Points))
+			c.Rep.States++
+			if res.Status == vsched.StCrash {
+				viol = "a library goroutine panicked: " + firstLine(res.Crash)
+			} else if len(res.Failures) > 0 {
+				viol = res.Failures[0]
+			}
+			if viol != "" {
+				if c.Violate("C17 window :: "+violClass(viol), core.Replay{Scenario: name, Message: viol}) {
+					return
+				}
+			}
+		}
+	}
+	c.Rep.Scenarios++
+}
+
 // C17: whole packets, per-publisher order.
 func C17(c *core.Ctx) {
 	c.Rep.Bound = "(stream, default schedule) one writer, five size patterns, 4 (quick) / 12 (thorough) laps round the outgoing ring, each with a prompt reader and with a slow reader behind a 700-byte pipe (every wrap happens on a full ring); SCHED: (narrow) 2-3 goroutines publishing 1-2 messages each through one service peer whose out ring was pre-rolled so that a packet wraps, all interleavings for one message per goroutine, <= 2 (quick) / 3 (thorough) preemptions otherwise; (broker) 2 raw publishers x 1-3 messages at QoS 0/1/2 to 2 subscribers through the real broker, every schedule that deviates from the default (run-until-blocked, lowest thread first) schedule at <= 1 (quick) / 2 (thorough) scheduling points, after a default-schedule set-up"
@@ -709,6 +818,10 @@ func C17(c *core.Ctx) {
 		return
 	}
 	c17oddIDs(c)
+	if c.HasViolation() {
+		return
+	}
+	c17window(c)
 	if c.HasViolation() {
 		return
 	}
